@@ -1241,6 +1241,9 @@ def iter_models(ctx, lens, consistent=False):
         ex.heap["$iters"][iid] = pos + 1
         ident = "%s[%d]" % (under, pos)
         evs.append(("elem", ident))
+        stored = ex.heap.get("$vals", {}).get(under)
+        if stored is not None and pos < len(stored) and isinstance(stored[pos], (BoolV, IntV)):
+            return RefV(stored[pos]), pos       # a scalar pushed earlier on this path: the iterator yields a reference to it
         return OpaqueV(ident), pos
 
     def leaves(desc):
@@ -1308,11 +1311,26 @@ def iter_models(ctx, lens, consistent=False):
         if re.search(r"^ret#\d+:.*Vec::(<.*>::)?(new|with_capacity)$", name) and (name in known or not any(
                 u == name for u in [re.sub(r"\[\d+\]$", "", e[1]) for e in events if e[0] == "elem"])):
             known[name] = known.get(name, 0) + 1
+            ex.heap.setdefault("$vals", {}).setdefault(name, []).append(ex.load(args[1]))
         else:
             known.pop(name, None)
+            ex.heap.setdefault("$vals", {}).pop(name, None)
         return [(pc, events + [("push", name, what_of(ex, args[1]))], TupleV([]))]
 
-    models = ([(r"Vec::<.*>::push$", m_vec_push)] if consistent else []) + [
+    def m_branch(ex, callee, args, pc, events):
+        r = ex.load(args[0])
+        if isinstance(r, EnumV) and r.variant in (0, "Ok"):
+            return [(pc, events, EnumV(variant=0, fields=[r.fields[0] if r.fields else TupleV([])]))]
+        if isinstance(r, EnumV) and r.variant in (1, "Err"):
+            return [(pc, events, EnumV(variant=1, fields=[r]))]
+        return [(pc, events, EnumV(variant=0, fields=[OpaqueV("ok-of(%s)" % getattr(r, "what", "?"))])),
+                (pc, events, EnumV(variant=1, fields=[EnumV(variant=1, fields=[OpaqueV("io::Error")])]))]
+
+    def m_from_residual(ex, callee, args, pc, events):
+        return [(pc, events, EnumV(variant=1, fields=[OpaqueV("io::Error")]))]
+
+    try_models = [(r"<Result<.*> as Try>::branch$", m_branch), (r"<Result<.*> as FromResidual<.*>>::from_residual$", m_from_residual)]
+    models = try_models + ([(r"Vec::<.*>::push$", m_vec_push)] if consistent else []) + [
         (r"as Deref(Mut)?>::deref(_mut)?$", m_deref),
         (r"impl \[.*\]>::iter(_mut)?$", m_iter), (r"as IntoIterator>::into_iter$", m_into_iter),
         (r"as Iterator>::zip::<", m_zip), (r"as Iterator>::enumerate$", m_enumerate), (r"as Iterator>::next$", m_next),
@@ -2229,6 +2247,332 @@ def c13_constructor_group(mir, ctx):
     return [g]
 
 
+# --------------------------------------------------------------------------
+# C03: per-row kernels of delete / select / update, frame condition, Rows iterator
+# --------------------------------------------------------------------------
+
+def _row_desc_models(ctx, what_of, coll):
+    """descriptors that keep the identity of the row a condition is evaluated on:
+    row(vec(map(it#k|<row>)))"""
+    def m_desc(fmt, n):
+        return lambda ex, callee, args, pc, events: [(pc, events, OpaqueV(fmt % tuple(what_of(ex, a) for a in args[:n])))]
+
+    def m_row(ex, callee, args, pc, events):
+        return [(pc, events, OpaqueV("row(%s)" % what_of(ex, args[1])))]
+
+    def m_eval(ex, callee, args, pc, events):
+        return [(pc, events + [("eval", what_of(ex, args[0]), what_of(ex, args[1]))], OpaqueV("value-of(%s)" % what_of(ex, args[1])))]
+
+    def m_to_bool(ex, callee, args, pc, events):
+        b = ctx.fresh_bool("condition_true")
+        return [(pc, events + [("cond", b.term, what_of(ex, args[0]))], BoolV(b.term))]
+
+    return [(r"as Iterator>::map::<", m_desc("map(%s)", 1)), (r"as Iterator>::collect::<Vec<Value>>$", m_desc("vec(%s)", 1)),
+            (r"Row::new$", m_row), (r"Expr::eval$", m_eval), (r"Value::to_bool$", m_to_bool)]
+
+
+def c03_retain_kernels_group(mir, ctx):
+    """The `retain` predicates of Delete::exec and Select::exec, one row per call."""
+    from .mir_protocol import _confirm_relational
+    g = Group("filter_kernels", ["query::Delete::exec::{closure} (retain predicate)", "query::Select::exec::{closure} (retain predicate)"],
+              confirm=_confirm_relational,
+              note="per row: DELETE keeps the row exactly when a condition is present and evaluates to false on THAT row (no condition: every "
+                   "row goes); SELECT keeps the row exactly when its condition evaluates to true on THAT row")
+    clos = [f for n, fs in mir.fns.items() for f in fs if re.search(r"::exec::\{closure#\d+\}$", n) and len(f.args) == 2
+            and "Vec<ValueRef>" in f.args[1][1] and (f.ret or "").strip() == "bool"]
+    dele = [f for f in clos if "ValueRef::remove" in f.text]
+    sele = [f for f in clos if "ValueRef::remove" not in f.text and "Expr::eval" in f.text]
+    if len(dele) != 1 or len(sele) != 1:
+        raise EncodingError("retain closures not found uniquely (delete %d, select %d)" % (len(dele), len(sele)))
+    for which, fn in (("delete", dele[0]), ("select", sele[0])):
+        lens = {}
+        it_models, what_of, coll = iter_models(ctx, lens)
+        models = [(r"ValueRef::remove$", lambda ex, callee, args, pc, events: [(pc, events, TupleV([]))])] + _row_desc_models(ctx, what_of, coll) + it_models
+        ex = M.Exec(mir, ctx, models=models, havoc_unknown=True)
+        ex.max_revisit = 3
+        ex.no_inline = [r"ValueRef::to_value$", r"closure", r"Table::"]
+        outs = ex.run(fn, [RefV(OpaqueV("closure-env")), RefV(OpaqueV("the-row"))])
+        n = 0
+        for k, o in enumerate(outs):
+            if o.kind == "panic":
+                g.queries.append(Query("%s_panic_%d" % (which, k), o.pc, "unsat", note="the %s predicate can panic: %s" % (which, o.msg)))
+                continue
+            if o.kind != "return":
+                continue
+            n += 1
+            kept = o.value
+            if not isinstance(kept, BoolV):
+                raise EncodingError("the %s retain predicate returns %r" % (which, kept))
+            conds = [e for e in o.events if e[0] == "cond"]
+            evals = [e for e in o.events if e[0] == "eval"]
+            if conds:
+                c = conds[-1]
+                if not evals or "|the-row" not in evals[-1][2] or evals[-1][2] not in c[2]:
+                    g.queries.append(Query("%s_other_row_%d" % (which, k), o.pc, "unsat", note="%s: the condition is not evaluated on the row being decided: eval%r cond%r" % (which, evals[-1:] , c)))
+                want_keep = s_not(c[1]) if which == "delete" else c[1]
+                g.queries.append(Query("%s_keep_iff_%d" % (which, k), o.pc + ["(not (= %s %s))" % (kept.term, want_keep)], "unsat",
+                                       note="%s: the row is kept although it should go, or goes although it should be kept (condition verdict vs. predicate result)" % which))
+            else:
+                if which == "delete":
+                    g.queries.append(Query("delete_all_%d" % k, o.pc + [kept.term], "unsat", note="DELETE without a condition keeps a row"))
+                else:
+                    g.queries.append(Query("select_noeval_%d" % k, o.pc, "unsat", note="the SELECT filter decides a row without evaluating the condition"))
+            g.witness.append(Query("w_%s_%d" % (which, k), o.pc, "sat"))
+        if n < 1:
+            raise EncodingError("%s retain predicate: no returning path" % which)
+    return [g]
+
+
+def c03_update_kernel_group(mir, ctx):
+    """Update::exec, loops unrolled (<= 2 assignments, <= 2 rows), lengths consistent: which cells
+    of which rows are rewritten, and to what."""
+    cands = [f for n, fs in mir.fns.items() for f in fs if n.endswith("::exec") and f.args and re.search(r"\bUpdate\b", f.args[0][1])]
+    if len(cands) != 1:
+        raise EncodingError("Update::exec not found uniquely in the MIR dump (%d)" % len(cands))
+    fn = cands[0]
+    from .mir_protocol import struct_fields, _confirm_relational
+    lens = {}
+    it_models, what_of, coll = iter_models(ctx, lens, consistent=True)
+
+    def m_same(ex, callee, args, pc, events):
+        return [(pc, events, OpaqueV(what_of(ex, args[0])))]
+
+    def m_ev(tag, ret):
+        return lambda ex, callee, args, pc, events: [(pc, events + [(tag,) + tuple(what_of(ex, a) for a in args)], ret())]
+
+    models = [
+        (r"Table::has_column$", lambda ex, callee, args, pc, events: [(pc, events, BoolV("true", True))]),
+        (r"Table::get_column$", lambda ex, callee, args, pc, events: [(pc, events, EnumV(variant=1, fields=[OpaqueV("column(%s)" % what_of(ex, args[1]))]))]),
+        (r"Column::is_valid_value$", lambda ex, callee, args, pc, events: [(pc, events, BoolV("true", True))]),
+        (r"Column::is_primary_key$", lambda ex, callee, args, pc, events: [(pc, events, BoolV("false", False))]),
+        (r"as Iterator>::any::<", lambda ex, callee, args, pc, events: [(pc, events, BoolV("false", False))]),
+        (r"Option::<.*>::unwrap$", lambda ex, callee, args, pc, events: [(pc, events, (lambda o: o.fields[0] if isinstance(o, EnumV) and o.fields else OpaqueV("unwrapped"))(ex.load(args[0])))]),
+        (r"String::as_str$|<String as Deref>::deref$|<Value as Clone>::clone$", m_same),
+        (r"Table::index_for_column_name$", lambda ex, callee, args, pc, events: [(pc, events, EnumV(variant=1, fields=[OpaqueV("index(%s)" % what_of(ex, args[1]))]))]),
+        (r"ValueRef::remove$", m_ev("remove", lambda: TupleV([]))), (r"ValueRef::create$", m_ev("create", lambda: OpaqueV("new-ref"))),
+    ] + _row_desc_models(ctx, what_of, coll) + it_models
+
+    def stop_at(f, bb, term):
+        if "::create_stream::<" in term and f is fn:
+            return "write"
+        return None
+
+    ex = M.Exec(mir, ctx, models=models, stop_at=stop_at, havoc_unknown=True, max_paths=400000)
+    ex.max_revisit = 3
+    ex.no_inline = [r"Table::(stream_name|name|columns|long_string_refs|read_rows|primary_key_indices)$", r"Expr::column_names$", r"ValueRef::to_value$", r"closure"]
+    qsrc = open(os.path.join(REPO, "src/internal/query.rs")).read()
+    ex.new_obj("update", [OpaqueV("update." + f) for f in struct_fields(qsrc, "Update")])
+    outs = ex.run(fn, [M.ObjV("update"), OpaqueV("comp"), OpaqueV("pool"), OpaqueV("tables")])
+    g = Group("update_kernel", ["query::Update::exec (loops unrolled; the key-update branch is C05's subject and is switched off here)"], confirm=_confirm_relational,
+              note="on every path that reaches the final write: a row's cells are rewritten exactly when the statement has no condition or its "
+                   "condition evaluates to true on THAT row; in such a row exactly the cells index(name_j) of the assignments j (<= 2) are "
+                   "rewritten, each to ValueRef::create(value_j); rows that do not match and all other cells are untouched")
+    nw = 0
+    for k, o in enumerate(outs):
+        if not (o.kind == "stopped" and o.msg == "write"):
+            continue
+        nw += 1
+        evs = o.events
+        assigns = sorted(set(e[1] for e in evs if e[0] == "elem" and re.fullmatch(r"update\.updates\[\d+\]", e[1])))
+        cells = [e for e in evs if e[0] in ("remove", "create")]
+        rc = set(mm.group(1) for e in evs if e[0] == "remove" for mm in [re.match(r"^(.*?)\[\d+\]\[\?.*\]$", e[1])] if mm)
+        rowelems = [e[1] for e in evs if e[0] == "elem"]
+        # row collection: from the modified cells, else from the rows a condition was evaluated on
+        if not rc:
+            rc = set(mm.group(1) for e in evs if e[0] == "eval" for mm in [re.search(r"\|(.*)\[\d+\]\)+$", e[2])] if mm)
+        if len(rc) > 1:
+            raise EncodingError("update kernel: more than one row collection: %r" % sorted(rc))
+        if not rc:
+            continue
+        rcn = rc.pop()
+        rows = sorted(set(x for x in rowelems if re.fullmatch(re.escape(rcn) + r"\[\d+\]", x)))
+        conds = {}
+        for n, e in enumerate(evs):
+            if e[0] == "cond":
+                mm = re.search(r"\|(%s\[\d+\])\)+$" % re.escape(rcn), e[2])
+                if mm:
+                    conds.setdefault(mm.group(1), e[1])
+        for r in rows:
+            removed = [e[1] for e in evs if e[0] == "remove" and e[1].startswith(r + "[")]
+            created = [e[1] for e in evs if e[0] == "create"]
+            want_cells = ["%s[?Opaque(index(%s.0))]" % (r, a) for a in assigns]
+            touched = bool(removed)
+            if touched and removed != want_cells:
+                g.queries.append(Query("cells_%d_%d" % (k, len(g.queries)), o.pc, "unsat", note="row %s: cells rewritten %r, assignments name %r" % (r[-12:], removed, want_cells)))
+            if not assigns:
+                continue        # a statement without assignments rewrites nothing
+            if r in conds:
+                # rewritten <=> condition true
+                g.queries.append(Query("match_%d_%d" % (k, len(g.queries)), o.pc + [conds[r] if not touched else s_not(conds[r])], "unsat",
+                                       note="a row is %s although the condition evaluates to %s on it" % ("rewritten" if touched else "left alone", "false" if touched else "true")))
+            elif not touched and assigns:
+                # no condition evaluated for this row: it must have been rewritten (statement without WHERE)
+                g.queries.append(Query("uncond_%d_%d" % (k, len(g.queries)), o.pc, "unsat", note="a row is left alone although no condition was evaluated on it"))
+        # every create takes the assignment's value, in order, once per rewritten cell
+        creates = [e[1] for e in evs if e[0] == "create"]
+        removes = [e[1] for e in evs if e[0] == "remove"]
+        want_vals = []
+        for rm in removes:
+            mm = re.search(r"index\((update\.updates\[\d+\])\.0\)", rm)
+            want_vals.append(mm.group(1) + ".1" if mm else "?")
+        if creates != want_vals:
+            g.queries.append(Query("values_%d" % k, o.pc, "unsat", note="new cell values %r do not match the assignments' values %r" % (creates, want_vals)))
+        if len(g.witness) < 40 and removes:
+            g.witness.append(Query("w_%d" % k, o.pc, "sat"))
+    g.queries.append(Query("paths", ["false"], "unsat", note="%d paths reach the final write" % nw))
+    if nw < 4 or not g.witness:
+        raise EncodingError("update kernel: %d paths reach the write, %d with rewritten cells" % (nw, len(g.witness)))
+    return [g]
+
+
+def c03_frame_group(mir, ctx):
+    """Insert/Update/Delete::exec and Join::exec(Table): which container calls they can make."""
+    from .mir_protocol import struct_fields, _confirm_relational
+    qsrc = open(os.path.join(REPO, "src/internal/query.rs")).read()
+    jv = enum_variants(qsrc, "Join")
+    g = Group("frame", ["query::Insert::exec", "query::Update::exec", "query::Delete::exec", "query::Join::exec (Join::Table)"], confirm=_confirm_relational,
+              note="the only container calls an executor makes are exists / open_stream (reads) on, and for the three writers exactly one "
+                   "create_stream of, the stream named Table::stream_name() of the table looked up under the statement's table name; a base-table "
+                   "select makes no writing call at all; so other tables, streams and the summary are not touched by an executor")
+    total = 0
+    for tname, rx in (("Insert", r"\bInsert\b"), ("Update", r"\bUpdate\b"), ("Delete", r"\bDelete\b"), ("Join", r"\bJoin\b")):
+        cands = [f for n, fs in mir.fns.items() for f in fs if n.endswith("::exec") and f.args and re.search(rx, f.args[0][1])]
+        if len(cands) != 1:
+            raise EncodingError("%s::exec not found uniquely (%d)" % (tname, len(cands)))
+        fn = cands[0]
+        lens = {}
+        it_models, what_of, coll = iter_models(ctx, lens, consistent=True)
+        models = [
+            (r"BTreeMap::<String, Rc<Table>>::get::<", lambda ex, callee, args, pc, events: [(pc, events + [("lookup", what_of(ex, args[1]))], EnumV(variant=1, fields=[OpaqueV("rc-table")])),
+                                                                                              (pc, events, EnumV(variant=0, fields=[]))]),
+            (r"Table::stream_name$", lambda ex, callee, args, pc, events: [(pc, events, OpaqueV("stream_name(%s)" % coll(what_of(ex, args[0]))))]),
+            (r"Column::is_valid_value$|Table::has_column$", lambda ex, callee, args, pc, events: [(pc, events, BoolV("true", True))]),
+            (r"as Iterator>::any::<", lambda ex, callee, args, pc, events: [(pc, events, BoolV(ctx.fresh_bool("any").term))]),
+        ] + it_models
+        ex = M.Exec(mir, ctx, models=models, havoc_unknown=True, max_paths=400000)
+        ex.max_revisit = 2
+        ex.no_inline = [r"Table::", r"Expr::", r"Row::new$", r"ValueRef::", r"Value::", r"closure", r"Select::exec", r"Rows::", r"Column::", r"StringPool::"]
+        if tname == "Join":
+            arg0 = EnumV(variant=jv.index("Table"), fields=[OpaqueV("join.table_name")])
+        else:
+            ex.new_obj("stmt", [OpaqueV("stmt." + f) for f in struct_fields(qsrc, tname)])
+            arg0 = M.ObjV("stmt")
+        outs = ex.run(fn, [arg0, OpaqueV("comp"), OpaqueV("pool"), OpaqueV("tables")])
+        for k, o in enumerate(outs):
+            if o.kind not in ("return",):
+                continue
+            total += 1
+            calls = [e for e in o.events if e[0] == "call" and re.search(r"CompoundFile(::<.*?>)?::\w+", e[1])]
+            looked = [e[1] for e in o.events if e[0] == "lookup"]
+            okret = isinstance(o.value, EnumV) and o.value.variant in (0, "Ok")
+            ncreate = 0
+            for c in calls:
+                meth = re.search(r"CompoundFile(?:::<.*?>)?::(\w+)", c[1]).group(1)
+                args = " ".join(str(a) for a in c[2:])
+                if meth not in ("exists", "open_stream", "create_stream") or (meth == "create_stream" and tname == "Join"):
+                    g.queries.append(Query("%s_call_%d_%d" % (tname, k, len(g.queries)), o.pc, "unsat", note="%s::exec calls CompoundFile::%s" % (tname, meth)))
+                elif "stream_name(rc-table)" not in args:
+                    g.queries.append(Query("%s_name_%d_%d" % (tname, k, len(g.queries)), o.pc, "unsat", note="%s::exec calls CompoundFile::%s on %s, not on the statement's table stream" % (tname, meth, args[:120])))
+                if meth == "create_stream":
+                    ncreate += 1
+            want_field = "join.table_name" if tname == "Join" else "stmt.table_name"
+            if calls and not any(want_field in l for l in looked):
+                g.queries.append(Query("%s_table_%d" % (tname, k), o.pc, "unsat", note="%s::exec touches the container without looking the table up under the statement's table name (%r)" % (tname, looked)))
+            if okret and tname != "Join" and ncreate != 1:
+                g.queries.append(Query("%s_writes_%d" % (tname, k), o.pc, "unsat", note="%s::exec returns Ok after %d create_stream calls (exactly one expected)" % (tname, ncreate)))
+            if not okret and ncreate and tname != "Join":
+                pass    # an error after create_stream (write failure) is the medium's fault, C04 restricts itself to argument errors
+            if len(g.witness) < 40 and calls:
+                g.witness.append(Query("w_%s_%d" % (tname, k), o.pc, "sat"))
+    g.queries.append(Query("paths", ["false"], "unsat", note="%d returning paths examined" % total))
+    if total < 8:
+        raise EncodingError("frame: only %d returning paths" % total)
+    return [g]
+
+
+def c03_rows_iterator_group(mir, ctx):
+    """Rows::next and Rows::size_hint from an arbitrary iterator state with next_row_index <= rows.len()."""
+    from .mir_protocol import struct_fields
+    tsrc = open(os.path.join(REPO, "src/internal/table.rs")).read()
+    rf = struct_fields(tsrc, "Rows")
+    for need in ("rows", "next_row_index"):
+        if need not in rf:
+            raise EncodingError("struct Rows has no field %s" % need)
+    f_next = [f for n, fs in mir.fns.items() for f in fs if n.endswith("::next") and f.args and "Rows<" in f.args[0][1] and "Option<Row>" in (f.ret or "").replace("internal::table::", "")]
+    f_hint = [f for n, fs in mir.fns.items() for f in fs if n.endswith("::size_hint") and f.args and "Rows<" in f.args[0][1]]
+    if len(f_next) != 1 or len(f_hint) != 1:
+        raise EncodingError("Rows::next / size_hint not found uniquely (%d, %d)" % (len(f_next), len(f_hint)))
+    from .mir_protocol import _confirm_relational
+    g = Group("rows_iterator", ["table::<Rows as Iterator>::next", "table::<Rows as Iterator>::size_hint"], confirm=_confirm_relational,
+              note="from any state with next_row_index <= rows.len(): size_hint() is exactly (n, Some(n)) with n = rows.len() - next_row_index and does "
+                   "not panic; next() yields a row exactly when n > 0, the row is built from rows[next_row_index], and it advances next_row_index by "
+                   "one (so the invariant is kept and the reported length, ExactSizeIterator::len() = size_hint().0, is the number of rows still to "
+                   "come: by induction it equals the number of rows yielded)")
+    lens = {}
+    it_models, what_of, coll = iter_models(ctx, lens)
+    ln = ctx.fresh_int("rows_len", "usize")
+
+    def m_len(ex, callee, args, pc, events):
+        return [(pc, events, ln)]
+
+    def m_index(ex, callee, args, pc, events):
+        i = ex.load(args[1])
+        return [(pc, events + [("index", getattr(i, "term", repr(i)))], OpaqueV("rows[idx]"))]
+
+    models = [(r"Vec::<Vec<ValueRef>>::len$", m_len), (r"<Vec<Vec<ValueRef>> as Index<usize>>::index$", m_index)] + it_models
+    for which, fn in (("next", f_next[0]), ("size_hint", f_hint[0])):
+        ex = M.Exec(mir, ctx, models=models, havoc_unknown=True)
+        ex.no_inline = [r"ValueRef::", r"Row::new$", r"closure", r"Table::"]
+        idx = ctx.fresh_int("next_row_index", "usize")
+        inv = "(<= %s %s)" % (idx.term, ln.term)
+        ex.new_obj("rows", [idx if f == "next_row_index" else OpaqueV("rows." + f) for f in rf])
+        outs = ex.run(fn, [M.ObjV("rows")])
+        outs = outs + ex._pending_panics
+        ex._pending_panics = []
+        nret = 0
+        for k, o in enumerate(outs):
+            if o.kind == "panic":
+                g.queries.append(Query("%s_panic_%d" % (which, k), [inv] + o.pc, "unsat", note="Rows::%s can panic from a state satisfying the invariant: %s" % (which, o.msg)))
+                continue
+            if o.kind != "return":
+                continue
+            nret += 1
+            if which == "next":
+                after = o.heap["rows"][rf.index("next_row_index")]
+                v = o.value
+                some = isinstance(v, EnumV) and v.variant in (1, "Some")
+                if some:
+                    g.queries.append(Query("next_some_%d" % k, [inv] + o.pc + ["(not (and (< %s %s) (= %s (+ %s 1))))" % (idx.term, ln.term, after.term, idx.term)], "unsat",
+                                           note="next() yields a row although none is left, or does not advance next_row_index by exactly one"))
+                    ix = [e for e in o.events if e[0] == "index"]
+                    if len(ix) != 1:
+                        g.queries.append(Query("next_src_%d" % k, [inv] + o.pc, "unsat", note="next() does not build its row from exactly one element of rows"))
+                    else:
+                        g.queries.append(Query("next_src_%d" % k, [inv] + o.pc + ["(not (= %s %s))" % (ix[0][1], idx.term)], "unsat", note="next() yields a row other than rows[next_row_index]"))
+                else:
+                    g.queries.append(Query("next_none_%d" % k, [inv] + o.pc + ["(not (and (>= %s %s) (= %s %s)))" % (idx.term, ln.term, after.term, idx.term)], "unsat",
+                                           note="next() returns None although rows are left, or moves next_row_index while doing so"))
+            else:
+                v = o.value
+                try:
+                    lo = v.fields[0]
+                    hi = v.fields[1]
+                    hi_some = isinstance(hi, EnumV) and hi.variant in (1, "Some")
+                    hv = hi.fields[0]
+                    g.queries.append(Query("hint_%d" % k, [inv] + o.pc + ["(not (and (= %s (- %s %s)) (= %s (- %s %s))))" % (lo.term, ln.term, idx.term, hv.term, ln.term, idx.term)] if hi_some else [inv] + o.pc,
+                                           "unsat", note="size_hint() is not exactly (rows.len() - next_row_index, Some(the same))"))
+                except Exception:
+                    raise EncodingError("size_hint returns %r" % (v,))
+            g.witness.append(Query("w_%s_%d" % (which, k), [inv] + o.pc, "sat"))
+        if nret < 1:
+            raise EncodingError("Rows::%s: no returning path" % which)
+    return [g]
+
+
+def c03_all(mir, ctx):
+    return c03_retain_kernels_group(mir, ctx) + c03_update_kernel_group(mir, ctx) + c03_frame_group(mir, ctx) + c03_rows_iterator_group(mir, ctx)
+
+
 def c05_all(mir, ctx):
     return c05_update_group(mir, ctx) + c05_insert_group(mir, ctx)
 
@@ -2251,7 +2595,7 @@ def _proto(which):
 
 BUILDERS = {"C18": c18_groups, "C19": c19_groups, "C14": c14_groups, "C20": c20_all, "C09": c20_groups,
             "C01": _proto({"mutators", "finish", "close"}), "C10": _proto({"mutators", "finish"}),
-            "C15": _proto({"finish", "close"}), "C16": _proto({"readonly"}), "C08": c08_all, "C04": _proto({"reject"}), "C11": c11_all, "C07": c07_insert_gate_group, "C12": c12_all, "C05": c05_all, "C13": c13_constructor_group}
+            "C15": _proto({"finish", "close"}), "C16": _proto({"readonly"}), "C08": c08_all, "C04": _proto({"reject"}), "C11": c11_all, "C07": c07_insert_gate_group, "C12": c12_all, "C05": c05_all, "C13": c13_constructor_group, "C03": c03_all}
 
 
 def native_confirm_c18(vals, work):
